@@ -64,6 +64,16 @@ macro_rules
     let ls := ls.getElems
     `(tactic| repeat (any_goals (first | (first $[| with_reducible apply $ls]*) | pres_step | pres_leaf)))
 
+/-- as `pres_auto`, but also decomposes a `>>=` that is only visible after unfolding `M`
+(a raw `fun w => …` continuation); for the primitives only — on composite functions it would
+unfold their callees. -/
+syntax "pres_auto_deep" ("[" term,* "]")? : tactic
+macro_rules
+  | `(tactic| pres_auto_deep) => `(tactic| repeat (any_goals (first | pres_step | pres_leaf | apply Preserves.bind)))
+  | `(tactic| pres_auto_deep [$ls,*]) => do
+    let ls := ls.getElems
+    `(tactic| repeat (any_goals (first | (first $[| with_reducible apply $ls]*) | pres_step | pres_leaf | apply Preserves.bind)))
+
 /-! ### specifications with separate success / failure postconditions -/
 
 /-- `Spec P x Q E`: from a world satisfying `P`, `x` either succeeds with `a` in a world satisfying
